@@ -199,6 +199,41 @@ if v: return v + (" deleting " if op == 0 else " adding key to ") + repr(path)
     )
 
 
+NAMEKEYS = ["name", "values:name", "bins:name", "sub:name", "underflow:name", "nanflow:name"]
+BADNAMES = "[0, False, [], {}, 0.0, 7, True, [1], {'a': 1}, 2.5]"
+
+
+def names(name, expr, dicts, timeout=60):
+    """round 5: a *name* field of a wrong JSON type (falsy ones included) anywhere in the document must be rejected -
+    whether or not the dict admits that key.  Selectors are symbolic, the body runs untraced."""
+    body = f"""
+warmup()
+p = sel(p, {", ".join(map(str, range(len(dicts))))}{"," if len(dicts) == 1 else ""})
+k = sel(k, {", ".join(map(str, range(len(NAMEKEYS))))})
+t = sel(t, 0, 1, 2, 3, 4, 5, 6, 7, 8, 9)
+with NT():
+    doc = mkdoc()
+    path = DICTS[p]
+    node = getpath(doc, path)
+    res = ""
+    # only aggregator records: maps keyed by user data (categories, labels) may legitimately hold any key
+    if isinstance(node, dict) and "entries" in node and not isinstance(node["entries"], dict) and "a" not in node and "" not in node:
+        node[NAMEKEYS[k]] = BADNAMES[t]
+        try:
+            Factory.fromJson(doc)
+            res = "non-string-name-accepted:" + NAMEKEYS[k] + "=" + repr(BADNAMES[t]) + " at " + repr(path)
+        except Exception:
+            res = ""
+if res: return res
+"""
+    return Harness(
+        f"C15/names/{{name}}".format(name=name), [("p", "int"), ("k", "int"), ("t", "int")],
+        f"0 <= p < {len(dicts)} and 0 <= k < {len(NAMEKEYS)} and 0 <= t < 10", body, timeout=timeout,
+        setup=C15_SETUP + f"MK = lambda: {expr}\nDICTS = {dicts!r}\nNAMEKEYS = {NAMEKEYS!r}\nBADNAMES = {BADNAMES}\n", tree=expr,
+        bounds=f"document of {name}; each of {len(dicts)} dicts x name key from {NAMEKEYS} x value from {BADNAMES} (by selector); must be rejected",
+    )
+
+
 def valid(name, expr, timeout=30):
     body = """
 with NT():
@@ -323,4 +358,5 @@ def harnesses(tier):
             out.append(holes(t.name, expr, plain[i : i + chunk], i // chunk, timeout=90 if tier == "quick" else 240))
         dels = [p for p in paths if not isinstance(p[-1], int)]
         out.append(keys(t.name, expr, dicts, dels, timeout=90 if tier == "quick" else 240))
+        out.append(names(t.name, expr, dicts))
     return out
